@@ -304,7 +304,7 @@ Section RT.
             { intros E. rewrite E in Hval. cbn in Hval. lia. }
             destruct ds; [contradiction|]. unfold zlen. cbn [List.length]. destruct (Z.of_nat (S (List.length ds)) * -1 <? 0) eqn:E2; lia.
           - destruct (zlen ds * 1 <? 0) eqn:E2; unfold zlen in *; lia. }
-        rewrite Hz. reflexivity.
+        rewrite Hz. destruct c_ok as [_ H30i]. rewrite H30i. reflexivity.
       + (* float: written as text *)
         cbn [dumps textify]. unfold dump_float_text.
         cbn [app]. rewrite step by used. cbn [Z.eqb Pos.eqb orb r_leaf read_u8 bind].
